@@ -26,49 +26,48 @@ RULE = ("db: every order 1..11 (the property's whole range, both tiers) plus ord
         "class suffixes: shift-readmit = the code before the fix (checks one after another) would have answered differently; "
         "order7-8-short = order 7 or 8 with stride <= 17. Only the db part is exhaustive over the property's range.")
 EXHAUSTIVE = {"quick": False, "thorough": False}
-TRUSTED_BASE = ["orders 9..11 only (Props/C17Native.lean): each use of native_decide adds its own axiom "
-                "`<theorem>._native.native_decide.ax_*` (this Lean version no longer routes through Lean.ofReduceBool), i.e. the Lean "
-                "compiler and interpreter are trusted for those three evaluations; the check accepts such an axiom only in that module "
-                "and only when it is named after a theorem of that module; orders 1..8 are kernel-evaluated",
+TRUSTED_BASE = ["no native_decide: every C17 theorem is checked by the Lean kernel alone (axioms propext, Classical.choice, Quot.sound)",
+                "orders 9, 10, 11: the kernel theorems speak about the text of the tables Gen/DeBruijnCert9/10/11.lean, which harness/cmd/extract-primers "
+                "regenerates on every run from primers.NucleobaseDeBruijnSequence(n) of the running code; the packing done by the extractor is "
+                "checked on every run by the driver (the unpacked text must equal the real reply and the model's output, else the run is a VIOLATION); "
+                "the certificate part of the tables (window value -> position) needs no trust: any function passes or fails the kernel check on its own",
                 "filters are modelled as pure functions Str -> Bool; on the protocol they come from a five-member named family implemented twice (Go harness, Lean model); "
                 "the Go loop calls every filter on every window even after a ban has rejected it - what a stateful filter would observe is outside the model",
-                "the audit of the native module: `check` forbids the word `axiom` in Props/C17Native.lean and accepts an axiom named "
-                "`T._native.native_decide.ax_*` only when T is a theorem of that module; a hand-written axiom of that name in an "
-                "IMPORTED module is rejected only because the forbidden-token list contains `native_decide`, which the name itself "
-                "contains - that token must therefore stay on the list of every module the native one imports",
                 "Go int arithmetic modelled on Nat/Int without overflow; strings are ASCII",
                 "transform.ReverseComplement as modelled for C11 (table regenerated from the code); barcodes_ban_free speaks of that table-driven function, "
                 "barcodes_ban_free_spec (through Props/C11 rc_spec, which is re-decided on the regenerated table in every build of Props/C17) and the judge "
                 "speak of the independent code-set reverse complement"]
-ASSUMPTIONS = ["filter functions are pure and total", "inputs are ASCII", "length and order are non-negative",
-               "`native_decide` stays a forbidden token for every module except Props/C17Native.lean (see trusted base: this is what keeps a "
-               "forged native axiom out)"]
-PARTIAL = ["'the generated De Bruijn sequence of order n ... contains every n-letter word exactly once' is proved for n = 1..11 "
-           "(the property's quantifier: kernel evaluation for 1..8, native_decide with its per-use axioms for 9..11); the statement for ALL n "
-           "(the Fredricksen-Kessler-Maiorana theorem) is written in Props/C17.lean as a comment and NOT claimed"]
+ASSUMPTIONS = ["filter functions are pure and total", "inputs are ASCII", "length and order are non-negative"]
+PARTIAL = ["'the generated De Bruijn sequence of order n ... contains every n-letter word exactly once' is proved for n = 1..11, the property's "
+           "quantifier, kernel-only, in two ways: n = 1..8 kernel evaluation of the MODEL deBruijn n; n = 9, 10, 11 kernel check of a certificate for the "
+           "string the RUNNING CODE returns (extracted table; the model's deBruijn 9/10/11 is tied to it by the run-time three-way comparison, not by a "
+           "theorem). The statement for ALL n (the Fredricksen-Kessler-Maiorana theorem) is written in Props/C17.lean as a comment and NOT claimed"]
 TECHNIQUE = ("Lean 4: a checker for the de Bruijn property proved sound for every order (pigeonhole on 4^n distinct windows), run by the "
-             "kernel on the model of the Lyndon-word construction (orders 1..8) and as compiled code (9..11); loop invariants of the "
+             "kernel on the model of the Lyndon-word construction (orders 1..8); for orders 9, 10, 11 a certificate checker "
+             "(window value -> position table regenerated from the running code, one kernel pass, soundness proved for every order); loop invariants of the "
              "barcode loops proved for every order, length, ban list and arbitrary filter functions; differential correspondence, with "
              "the same verified checker and the four laws evaluated on the real output")
-LEVEL_TEXT = ("windowsDistinct_sound / checkWith_sound: the checker is sound for every n and every string. db_ok_1..8 (decide +kernel) and "
-              "db_ok_9..11 (native_decide, separate module, per-use axioms): the model of NucleobaseDeBruijnSequence passes it on the property's whole range, "
+LEVEL_TEXT = ("windowsDistinct_sound / checkWith_sound: the checker is sound for every n and every string. db_ok_1..8 (decide +kernel): the model of NucleobaseDeBruijnSequence passes it; generated9/10/11_isDeBruijn "
+              "(decide +kernel on certificate tables regenerated from the code, segments_isDeBruijn proved for every order): the strings the running "
+              "code returns for orders 9, 10 and 11 are de Bruijn sequences (no native_decide is left); "
               "and on every run the real function's output is compared with the model's for every order 1..11 and fed to the same checker. "
               "barcodes_terminate, barcodes_substrings, barcodes_len, barcodes_no_shared_nmer, barcodes_unique, barcodes_ban_free "
               "(and barcodes_ban_free_spec: the independent reverse complement, via Props/C11 rc_spec), "
               "barcodes_filters hold for every order, every length >= order, every ban list (also empty bans), arbitrary filters, and any "
-              "string passing the checker; createBarcodes_laws_le8 / _9_11 instantiate them for the function itself. The loop model is tied "
+              "string passing the checker; createBarcodes_laws_le8 (and barcodes_no_shared_nmer_generated for the extracted orders 9..11) instantiate them for the function itself. The loop model is tied "
               "to the code by correspondence (exhaustive small ban sets, random and adversarial ban sets incl. bans of 9..20 letters, every stride 1..18 at orders 6..8 with adversarial bans "
               "(both tiers; without bans: stride 1 in quick, every stride in thorough), "
               "histories of calls with alternating orders, out-of-domain panics); the driver evaluates the model through an executable "
               "twin proved equal to it (barcodesOnFast_eq).")
-LEVEL_NOTE = ("Trusted: Lean kernel (plus, for orders 9..11, the Lean compiler through the per-use axioms "
-              "`<theorem>._native.native_decide.ax_*` of Props/C17Native.lean); harness and generators; purity of filters; "
+LEVEL_NOTE = ("Trusted: Lean kernel only (orders 9..11 are kernel-checked on tables extracted from the running code; the extractor's packing is "
+              "re-checked against the real reply on every run); harness and generators; purity of filters; "
               "ASCII strings; no integer overflow. Empty, one-letter, lower-case and IUPAC bans, order 1 and lengths > 60 are "
               "compared with the model but not claimed.")
 HARNESS_BIN = "run-primers"
-EXTRACT_BINS = ["extract-seq"]
-PROOF_MODULES = ["PolyVerif.Props.C17", "PolyVerif.Props.C17Big"]
-NATIVE_MODULES = ["PolyVerif.Props.C17Native"]
+EXTRACT_BINS = ["extract-seq", "extract-primers"]
+PROOF_MODULES = ["PolyVerif.Props.C17", "PolyVerif.Props.C17Big", "PolyVerif.Props.C17Cert", "PolyVerif.Props.C17Cert10",
+                 "PolyVerif.Props.C17Cert11a", "PolyVerif.Props.C17Cert11b", "PolyVerif.Props.C17Cert11c", "PolyVerif.Props.C17Cert11"]
+NATIVE_MODULES = []
 TIMEOUT_MS = 30000
 
 _RC = str.maketrans("ATGC", "TACG")
